@@ -21,7 +21,8 @@ from concurrent.futures import ThreadPoolExecutor
 
 VERIF = os.path.dirname(os.path.dirname(os.path.abspath(__file__)))
 COQ = os.path.join(VERIF, "coq")
-HARNESS = os.path.join(VERIF, "harness")
+HARNESS = os.environ.get("VERIF_HARNESS", os.path.join(VERIF, "harness"))
+OUTDIR = os.environ.get("VERIF_OUTDIR", VERIF)   # evidence/ and replays/ go here (mutation runs redirect it)
 CACHE = os.path.join(VERIF, ".cache")
 TARGET = os.environ.get("VERIF_CARGO_TARGET", os.path.join(CACHE, "target"))
 REPO = os.environ.get("VERIF_REPO", "/repo")
@@ -456,20 +457,21 @@ class Prop:
 
 
 def write_replay(prop, kind, obj):
-    d = os.path.join(VERIF, "replays")
+    d = os.path.join(OUTDIR, "replays")
     os.makedirs(d, exist_ok=True)
     h = hashlib.sha1(json.dumps(obj, sort_keys=True, default=str).encode()).hexdigest()[:10]
     path = os.path.join(d, "%s-%s-%s.json" % (prop.pid, kind, h))
     obj = dict(obj)
     obj["property"] = prop.pid
     obj["kind"] = kind
-    obj["replay_cmd"] = "./check %s --replay %s" % (prop.pid, os.path.relpath(path, VERIF))
+    rel = os.path.relpath(path, VERIF) if OUTDIR == VERIF else path
+    obj["replay_cmd"] = "./check %s --replay %s" % (prop.pid, rel)
     json.dump(obj, open(path, "w"), indent=1, default=str)
-    return os.path.relpath(path, VERIF)
+    return rel
 
 
 def write_evidence(prop, tier, seed, coverage, wall, violations, extra_assumptions=()):
-    d = os.path.join(VERIF, "evidence")
+    d = os.path.join(OUTDIR, "evidence")
     os.makedirs(d, exist_ok=True)
     ev = {
         "property_id": prop.pid, "tier": tier, "seed": seed, "level": "proof",
